@@ -204,7 +204,7 @@ def run(ctx):
     deaths2 = 0
     import concurrent.futures
     with concurrent.futures.ThreadPoolExecutor(max_workers=min(nproc, 6)) as ex:
-        futs = [ex.submit(nv.run_child, ctx, binary, "TestVerifPrograms", [item(p)], "single%d" % p["id"], 90, 4, "items", None, "run") for p in picked + singles]
+        futs = [ex.submit(nv.run_child, ctx, binary, "TestVerifPrograms", [item(p)], "single%d" % p["id"], 150, 4, "items", None, "run") for p in picked + singles]
         for f in futs:
             r, d = f.result()
             res2 += r
@@ -218,6 +218,21 @@ def run(ctx):
         r4, d4 = nv.run_children_parallel(ctx, binary, "TestVerifPrograms", rest, "rest", 180, nproc, defop="run")
         res2 += r4
         ctx.log("held-back programs: %d run, %d child deaths" % (len(rest), d4))
+
+    # ---- directed native scenario on real contract state (ontid: controller removes key index 0)
+    scen, scen_deaths = [], 0
+    if not ctx.replay_in:
+        scen, scen_deaths = nv.run_child(ctx, binary, "TestVerifOntIdIndex0", [{"id": i} for i in range(4)], "ontid", 300, 4, "items", None, "run", 1)
+        for o in scen:
+            if o["out"] in DEAD:
+                ctx.violation("NativeInvoke:ontid.removeKeyByController:key-index-0:process-death",
+                              "ontid scenario step %d (regIDWithPublicKey, regIDWithController, removeKeyByController index 1, removeKeyByController index 0 "
+                              "with a valid controller proof) -> %s: %s" % (o["id"], o["out"], (o.get("err") or "")[:240]), {"scenario": "TestVerifOntIdIndex0", "step": o["id"]})
+        if len([o for o in scen if o["out"] == "ok"]) < 3:
+            ctx.infra("ontid scenario did not reach the removeKeyByController step: %s" % [(o.get("step"), o.get("res"), o["out"]) for o in scen])
+        elif any(o["out"] == "ok" and o.get("res") != "ok" for o in scen if o["id"] < 2):
+            ctx.infra("ontid scenario set-up failed: %s" % [(o.get("step"), o.get("res")) for o in scen])
+        ctx.log("ontid scenario: %s" % [(o.get("step", o["id"]), o.get("res", o["out"])[:40]) for o in scen])
 
     # ---- oracle: the process survives and every request ends
     viol = {}
@@ -256,7 +271,7 @@ def run(ctx):
         ctx.samples.append({"finding": key, "program": p["hex"][:300], "outcome": o["out"]})
     return finish(ctx, stats, len(answered), {
         "programs": len(progs), "programs_executed": len(answered), "families": fam_counts, "halt": n_ok, "fault": n_fault,
-        "child_deaths": deaths + deaths2, "held_back_programs_run": len(rest), "gas_limit": GAS,
+        "child_deaths": deaths + deaths2 + scen_deaths, "native_scenario_steps": len(scen), "held_back_programs_run": len(rest), "gas_limit": GAS,
         "finding_classes": {k: len(v) for k, v in viol.items()},
     })
 
@@ -268,6 +283,6 @@ def finish(ctx, stats, n, extra):
         "the specification is a value-graph / resource-guard model: it generates the adversarial heaps and states totality; it is not a model of all NeoVM semantics (DESIGN.md section 5)",
         "scope of this check: NeoVM bytecode through SmartContract.NewExecuteEngine().Invoke() in transaction mode (gas limit 200000) and pre-execution mode (step limit), "
         "syscalls into runtime/storage/native contracts on an empty in-memory ledger state; EVM bytecode and WASM are not exercised",
-        "a program counts as hanging when one run produces no result for 90 s wall clock (180 s inside a batch) (the same programs need < 1 s when they fault properly)",
+        "a program counts as hanging when one run produces no result for 150 s wall clock (180 s inside a batch) (the same programs need < 1 s when they fault properly)",
         "programs on which the as-coded model predicts a fatal run are sampled per structural class (each costs a process)",
     ])
